@@ -134,7 +134,7 @@ def run(tier: str, seed: int) -> int:
     ntr = 150 if tier == "quick" else 3000
     traces = float_resize_traces(rng, ntr)
     validate_traces(chk, traces, site="float-resize-history")
-    canary_trace(chk, next(t for t in traces if len(t["ev"]) > 3))
+    canary_trace(chk, [t for t in traces if len(t["ev"]) > 3])
     return chk.finish()
 
 
